@@ -17,6 +17,8 @@ package main
 // output := sign=<ok|err> verifysig=<ok|fail> derive=<ok|err> payload=<hex> honest=<ok|fail> neg=<ok|fail|na>
 
 import (
+	"sync"
+	"sync/atomic"
 	"crypto/sha256"
 	"encoding/hex"
 	"fmt"
@@ -223,6 +225,44 @@ func c17Run(input string) string {
 	// the same proof bytes verify again (the verifier must not have altered them)
 	if e := verifyProof(rm, buf, nonce, false); e != nil {
 		honest += "+again=fail"
+	}
+	// several holders and verifiers at work in one process at the same time (nothing shared by the callers): every
+	// honest operation still succeeds, and a proof derived under load verifies
+	if honest == "ok" && vs == "ok" && len(input)%3 == 0 {
+		var wg sync.WaitGroup
+		var bad atomic.Int32
+		for g := 0; g < 6; g++ {
+			wg.Add(1)
+			go func(g int) {
+				defer wg.Done()
+				defer func() {
+					if recover() != nil {
+						bad.Add(1)
+					}
+				}()
+				for it := 0; it < 2; it++ {
+					switch g % 3 {
+					case 0:
+						if verifyProof(rm, append([]byte{}, proof...), nonce, false) != nil {
+							bad.Add(1)
+						}
+					case 1:
+						if verifySig(msgs, sig) != nil {
+							bad.Add(1)
+						}
+					default:
+						p, e := derive(append([]int{}, revealed...))
+						if e != nil || verifyProof(rm, p, nonce, false) != nil {
+							bad.Add(1)
+						}
+					}
+				}
+			}(g)
+		}
+		wg.Wait()
+		if bad.Load() > 0 {
+			honest += "+concurrent=fail"
+		}
 	}
 	// negative case
 	m2 := append([][]byte{}, rm...)
